@@ -2,27 +2,27 @@
 #define HX_HAS_ROTATION 1
 #include "generic.h"
 namespace hx {
-template <> struct Extra<manif::SE3d> {
+template <> struct Extra<manif::SE3<HX_SC>> {
   static bool run(const Req& r, Resp& R) {
     const auto& a = r.a;
-    using G = manif::SE3d;
-    if (r.op == "ctor_xyzrpy" && a.size() == 6) { G g(a[0], a[1], a[2], a[3], a[4], a[5]); pushM(R.out, g.coeffs()); return true; }
+    using G = manif::SE3<HX_SC>;
+    if (r.op == "ctor_xyzrpy" && a.size() == 6) { G g((HX_SC)a[0], (HX_SC)a[1], (HX_SC)a[2], (HX_SC)a[3], (HX_SC)a[4], (HX_SC)a[5]); pushM(R.out, g.coeffs()); return true; }
     if (r.op == "ctor_taa" && a.size() == 7) {
-      G g(Eigen::Vector3d(a[0], a[1], a[2]), Eigen::AngleAxisd(a[3], Eigen::Vector3d(a[4], a[5], a[6])));
+      G g(Eigen::Matrix<HX_SC, 3, 1>((HX_SC)a[0], (HX_SC)a[1], (HX_SC)a[2]), Eigen::AngleAxis<HX_SC>((HX_SC)a[3], Eigen::Matrix<HX_SC, 3, 1>((HX_SC)a[4], (HX_SC)a[5], (HX_SC)a[6])));
       pushM(R.out, g.coeffs()); return true;
     }
     if (r.op == "ctor_tso3" && a.size() == 7) {
-      Operand<manif::SO3d, 'o'> q(a.data() + 3);
-      G g(Eigen::Vector3d(a[0], a[1], a[2]), q.get()); pushM(R.out, g.coeffs()); return true;
+      Operand<manif::SO3<HX_SC>, 'o'> q(a.data() + 3);
+      G g(Eigen::Matrix<HX_SC, 3, 1>((HX_SC)a[0], (HX_SC)a[1], (HX_SC)a[2]), q.get()); pushM(R.out, g.coeffs()); return true;
     }
     if (r.op == "ctor_iso" && a.size() == 16) {
-      Eigen::Transform<double, 3, Eigen::Isometry> h;
-      for (int i = 0; i < 4; ++i) for (int j = 0; j < 4; ++j) h.matrix()(i, j) = a[4 * i + j];
+      Eigen::Transform<HX_SC, 3, Eigen::Isometry> h;
+      for (int i = 0; i < 4; ++i) for (int j = 0; j < 4; ++j) h.matrix()(i, j) = (HX_SC)a[4 * i + j];
       G g(h); pushM(R.out, g.coeffs()); return true;
     }
     if (r.op == "set_quat" && a.size() == 11) {
       Operand<G, 'o'> x(a.data());
-      x.mut().quat(Eigen::Quaterniond(a[10], a[7], a[8], a[9]));
+      x.mut().quat(Eigen::Quaternion<HX_SC>((HX_SC)a[10], (HX_SC)a[7], (HX_SC)a[8], (HX_SC)a[9]));
       pushM(R.out, x.get().coeffs()); return true;
     }
     if (r.op == "accessors" && a.size() == 7) {
@@ -35,5 +35,5 @@ template <> struct Extra<manif::SE3d> {
     return false;
   }
 };
-void run_SE3(const Req& r, Resp& R) { run<manif::SE3d>(r, R); }
+void run_SE3(const Req& r, Resp& R) { run<manif::SE3<HX_SC>>(r, R); }
 }
